@@ -19,7 +19,11 @@ def process_protocol(ctx, binp):
         for x in g.json_lines("SCN "):
             allowed.setdefault(kind, set()).add(x["result"].replace("exit-error", "exited").replace("exit", "exited").replace("exiteded", "exited"))
     allowed["selfexit"] = {"exited"}
-    kinds = ["polite", "selfexit"] + ([] if ctx.quick else ["stubborn", "holder"])
+    # LocalProcess.tla: the same question for a peer that runs in process (each result() call gives up after one grace period)
+    for kind in ("polite", "stubborn", "selfexit"):
+        r = ctx.tlc("LocalProcess", "MC_LocalProcess_%s.cfg" % kind, timeout=600)
+        allowed["inproc-" + kind] = {x for x in ("exited", "gave-up") if any(x in ln for ln in r.lines("SCN "))}
+    kinds = ["polite", "selfexit", "inproc-polite", "inproc-stubborn"] + ([] if ctx.quick else ["stubborn", "holder"])
     outp = os.path.join(ctx.build, "c11.proc")
     ctx.run_harness(binp, "TestVerifC11Process", env=dict(VERIF_OUT=outp, VERIF_KINDS=",".join(kinds)), timeout=120)
     obs = vf.read_ndjson(outp)
@@ -37,6 +41,10 @@ def process_protocol(ctx, binp):
             why = "stopping took %.1f s, more than two grace periods" % o["seconds"]
         elif o["kind"] in ("polite", "selfexit") and o["seconds"] > 4:
             why = "a cooperative peer took %.1f s to be reaped" % o["seconds"]
+        elif o["kind"] == "inproc-stubborn" and o["seconds"] > 8:
+            why = "giving up on an in-process peer took %.1f s, more than one grace period" % o["seconds"]
+        elif o["kind"] == "inproc-stubborn" and o["fired"] == [0, 0]:
+            why = None   # the peer function never returned: no whenDone callback is due
         elif o["fired"] != [1, 1]:
             why = "whenDone callbacks fired %s times, exactly once each is required" % o["fired"]
         elif not o["stable"] or o["second_result_us"] > 500000:
